@@ -13,7 +13,7 @@ use vbase::{ensure, fail};
 
 use crate::family::*;
 
-pub const RULE: &str = "cases are rejected (and some accepted) inputs: generated multi-line documents after one or two random mutations, every truncation / substitution / deletion of a set of multi-line documents, UTF-8 damage, and texts printed (pretty, multi-line) from generated values of typed targets and then damaged so that visitor-made errors occur (missing/unknown/duplicate field, invalid type/value/length, unknown variant, out-of-range number). Every error returned by from_slice/from_str for Value, LazyValue, OwnedLazyValue, IgnoredAny and the typed targets, by Deserializer::deserialize at a non-zero stream position, StreamDeserializer, get/get_from_*, get_many, get_by_schema and both lazy iterators is checked: offset <= input length; (line, column) == the position of that offset recomputed from the input (line = 1 + newlines before it, column = bytes since the last newline); Display and Debug do not panic and are non-empty; the NotFound category arises only from path lookups; after a stream or lazy iterator has returned Err or None, five further polls return None. Non-trivial = error with offset >= 1 and at least one newline before it; distinct by (input, entry point).";
+pub const RULE: &str = "cases are rejected (and some accepted) inputs: generated multi-line documents after one or two random mutations, every truncation / substitution / deletion of a set of multi-line documents, UTF-8 damage, long multi-line inputs (480..4200 bytes of short lines before the damaged part), documents whose strings carry invalid UTF-8 in front of a later defect, and texts printed (pretty, multi-line) from generated values of typed targets and then damaged so that visitor-made errors occur (missing/unknown/duplicate field, invalid type/value/length, unknown variant, out-of-range number). Every error returned by from_slice/from_str for Value, LazyValue, OwnedLazyValue, IgnoredAny and the typed targets, by Deserializer::deserialize at a non-zero stream position, by the utf8_lossy() deserializer (Value, typed, OwnedLazyValue, over &[u8] and Bytes, first and later documents), StreamDeserializer, get/get_from_*, get_many, get_by_schema and both lazy iterators is checked: offset <= input length; (line, column) == the position of that offset recomputed from the input (line = 1 + newlines before it, column = bytes since the last newline); Display and Debug do not panic and are non-empty; the NotFound category arises only from path lookups; after a stream or lazy iterator has returned Err or None, five further polls return None. Non-trivial = error with offset >= 1 and at least one newline before it; distinct by (input, entry point).";
 pub const ASSUMPTIONS: &[&str] = &["line/column convention as implemented and documented: line 1-based, column = number of bytes between the last newline and the offset", "errors that do not come from parsing input (to_value, writer I/O) are outside the domain"];
 
 fn check_error(api: &str, e: &sonic_rs::Error, input: &[u8], lookup: bool, obs: &mut Obs) -> Result<(), Fail> {
@@ -96,6 +96,33 @@ pub fn oracle(input: &[u8], obs: &mut Obs) -> Result<(), Fail> {
     }
     if let Err(e) = sonic_rs::from_reader::<_, Value>(input) {
         check_error("from_reader::<Value>", &e, input, false, obs)?;
+    }
+    // ---- lossy mode: positions still refer to the caller's bytes, not to a repaired copy
+    {
+        if let Err(e) = Deserializer::from_slice(input).utf8_lossy().deserialize::<Value>() {
+            check_error("lossy Deserializer::deserialize::<Value>", &e, input, false, obs)?;
+        }
+        if let Err(e) = Deserializer::from_slice(input).utf8_lossy().deserialize::<Nested>() {
+            check_error("typed lossy Deserializer::deserialize::<Nested>", &e, input, false, obs)?;
+        }
+        if let Err(e) = Deserializer::from_slice(input).utf8_lossy().deserialize::<Vec<String>>() {
+            check_error("typed lossy Deserializer::deserialize::<Vec<String>>", &e, input, false, obs)?;
+        }
+        if let Err(e) = Deserializer::from_slice(input).utf8_lossy().deserialize::<OwnedLazyValue>() {
+            check_error("lossy Deserializer::deserialize::<OwnedLazyValue>", &e, input, false, obs)?;
+        }
+        let by = Bytes::copy_from_slice(input);
+        if let Err(e) = Deserializer::from_json(&by).utf8_lossy().deserialize::<Value>() {
+            check_error("lossy Deserializer(Bytes)::deserialize::<Value>", &e, input, false, obs)?;
+        }
+        let mut w = b"0 \n [1]\n".to_vec();
+        w.extend_from_slice(input);
+        let mut de = Deserializer::from_slice(&w).utf8_lossy();
+        let _ = de.deserialize::<Value>();
+        let _ = de.deserialize::<Vec<u8>>();
+        if let Err(e) = de.deserialize::<Value>() {
+            check_error("lossy Deserializer::deserialize::<Value> (third document, stream)", &e, &w, false, obs)?;
+        }
     }
     // ---- stream: deserialize at a non-zero position
     {
@@ -220,7 +247,7 @@ pub fn oracle(input: &[u8], obs: &mut Obs) -> Result<(), Fail> {
 }
 
 pub fn subs() -> Vec<Sub<'static>> {
-    ["mutated", "sweep", "typed"].iter().map(|n| Sub { name: n, oracle: &oracle, minimise_bytes: true }).collect()
+    ["mutated", "sweep", "typed", "long", "lossy"].iter().map(|n| Sub { name: n, oracle: &oracle, minimise_bytes: true }).collect()
 }
 
 struct PrettyVisitor<'a, 'b> {
@@ -259,6 +286,64 @@ pub fn run(ctx: &Ctx) {
             m = gens::mutate(src, &m).0;
         }
         m
+    });
+    // long multi-line inputs: several hundred to a few thousand bytes of short lines in front of the
+    // damaged part, so that error offsets are large and many newlines share a 32/64-byte block
+    let pc = p.clone();
+    ctx.search(&subs[3], "long", ctx.n(30_000, 400_000), 400, &move |src: &mut Src| {
+        let d = gens::gen_doc(src, &DocParams { max_items: 3, max_depth: 3, long_strings: false, ..pc.clone() });
+        let mut m = gens::mutate(src, &d).0;
+        if src.chance(40) {
+            m = gens::mutate(src, &m).0;
+        }
+        let target = *src.pick(&[480usize, 512, 530, 600, 700, 1000, 1024, 2000, 4100]) + src.below(64);
+        let mut out = vec![b'['];
+        const LINES: &[&[u8]] = &[b"\n", b"1,\n", b" 2 ,\n", b"\n\n", b"\t\"ab\",\r\n", b"[],\n", b"{\"k\":\n1},\n", b"null,", b"\n\n\n\n", b"\"a somewhat longer string without any newline inside it\",", b"3,\n\n4,\n"];
+        while out.len() < target {
+            let l: &[u8] = *src.pick(LINES);
+            out.extend_from_slice(l);
+        }
+        out.extend_from_slice(&m);
+        if src.chance(200) {
+            out.extend_from_slice(b"\n]");
+        }
+        out
+    });
+    // invalid UTF-8 inside strings in front of a later defect (lossy mode repairs the strings)
+    let pc = p.clone();
+    ctx.search(&subs[4], "lossy", ctx.n(30_000, 400_000), 400, &move |src: &mut Src| {
+        let d = gens::gen_container_doc(src, &pc);
+        // break 1..3 string literals with invalid sequences
+        let mut out = d.clone();
+        let quotes = gens::find_all(&out, b"\"");
+        let nbreak = 1 + src.below(3);
+        let mut added = 0usize;
+        let mut spots: Vec<usize> = (0..nbreak).filter_map(|_| if quotes.is_empty() { None } else { Some(quotes[src.below(quotes.len())] + 1) }).collect();
+        spots.sort();
+        for sp in spots {
+            let bad: &[u8] = *src.pick(gens::UTF8_DAMAGE);
+            let at = (sp + added).min(out.len());
+            out.splice(at..at, bad.iter().copied());
+            added += bad.len();
+        }
+        // then a defect further on
+        match src.below(4) {
+            0 => {
+                let cut = out.len() - src.below(out.len().min(12));
+                out.truncate(cut);
+            }
+            1 => out.extend_from_slice(b"\n x"),
+            2 => {
+                let (m, _) = gens::mutate(src, &out);
+                out = m;
+            }
+            _ => {
+                if let Some(&c) = gens::find_all(&out, b",").last() {
+                    out.splice(c..c + 1, b",\n,".iter().copied());
+                }
+            }
+        }
+        out
     });
     // systematic sweep over multi-line documents
     let ndocs = ctx.n(24, 240);
